@@ -9,6 +9,7 @@ import (
 	"io"
 	"net"
 	"net/http"
+	"os"
 	"sort"
 	"strings"
 	"sync"
@@ -111,14 +112,47 @@ func NewBackend(name string, g *Group) *Backend {
 	b.HealthStatus.Store(200)
 	b.ModelsStatus.Store(200)
 	b.SetModelsOpenAI([]string{"m1"})
-	ln, err := net.Listen("tcp", "127.0.0.1:0")
-	if err != nil {
-		panic(err)
+	for {
+		ln, err := net.Listen("tcp", fmt.Sprintf("127.0.0.1:%d", nextPort()))
+		if err != nil {
+			continue
+		}
+		b.ln = ln
+		b.addr = ln.Addr().String()
+		go b.serve(ln)
+		return b
 	}
-	b.ln = ln
-	b.addr = ln.Addr().String()
-	go b.serve(ln)
-	return b
+}
+
+var (
+	portMu   sync.Mutex
+	portNext = 21000 + (os.Getpid()%100)*100
+)
+
+// nextPort hands out every port at most once per process, from a range below the kernel's ephemeral
+// range: a listener that is closed on purpose ("connection refused") can then never be re-used by
+// another stack's listener or by an outbound connection, and two stacks never share an address.
+func nextPort() int {
+	portMu.Lock()
+	defer portMu.Unlock()
+	portNext++
+	if portNext >= 32000 {
+		portNext = 21000
+	}
+	return portNext
+}
+
+// FreePort returns an unused port from the private range.
+func FreePort() int {
+	for {
+		p := nextPort()
+		l, err := net.Listen("tcp", fmt.Sprintf("127.0.0.1:%d", p))
+		if err != nil {
+			continue
+		}
+		l.Close()
+		return p
+	}
 }
 
 func (b *Backend) Addr() string { return b.addr }
